@@ -209,6 +209,13 @@ def gen_cases(ctx):
     # the root directory (its line carries the root's mode and owner)
     for p in PERMS:
         cases.append(Case(None, "dir", p, rng.choice(IDS), rng.choice(IDS), 0, b"", [], "rootdir"))
+    # names of 255 bytes (the longest an image can hold) made of quoting-relevant bytes, long targets and roots
+    for j in range(6 if ctx.quick() else 60):
+        n1 = bytes(rng.choice([SP, TAB, DQ, BS, CR, HASH, 0x61, 0x80]) for _ in range(255))
+        n2 = bytes(rng.choice(b"abc.-") for _ in range(255))
+        n2 = n2 if valid_name(n2) else b"x" * 255
+        for k in ("file", "dir", "slink"):
+            cases.append(Case(rng.choice([None, b"r" * 300 + b" s"]), k, 0o644, 1, 2, 0, random_string(rng, 6000, slash=True), [n2, n1, n2][:1 + j % 3], "long"))
     # line feeds: in a symlink target and in --unpack-root (inside the property: only *names* are LF-free), and in
     # names (outside the property; the printer must still be the modelled one)
     lfs = lf_strings(rng, 12 if ctx.quick() else 400)
@@ -497,7 +504,7 @@ def run_simple_ops(ctx, pair, stats):
         for p in sorted(cdir.glob("*.ops")):
             for l in p.read_text().splitlines():
                 l = l.strip()
-                if l and not l.startswith("#") and l.split(" ", 1)[0] in ("split", "pos", "num", "parse", "splitsep", "dev", "mkdev"):
+                if l and not l.startswith("#") and l.split(" ", 1)[0] in ("split", "pos", "num", "parse", "splitsep", "possep", "dev", "mkdev"):
                     ops.append((l, [l])); ncorpus += 1
     for s in lines:
         ops.append(("split " + tok(s), None))
@@ -509,6 +516,8 @@ def run_simple_ops(ctx, pair, stats):
         if i % 3 == 0:
             s = s.replace(b" ", sep[:1])
         ops.append(("splitsep %s %s" % (tok(sep), tok(s)), None)); nsep += 1
+        if i % 4 == 0:
+            ops.append(("possep %s %s" % (tok(sep), tok(s)), None))
     nums = gen_numbers(ctx)
     for s in nums:
         ops.append(("num 8 4095 " + tok(s), None))
@@ -556,7 +565,10 @@ def run_simple_ops(ctx, pair, stats):
         answers = mout[pos: pos + len(m)]
         pos += len(m)
         kind = o.split(" ", 1)[0]
-        if kind == "pos":
+        if kind == "esc" and a == "nofn":
+            hist["esc:ok"] = hist.get("esc:ok", 0) + 1          # tie lost, already reported by build_harness
+            continue
+        if kind in ("pos", "possep"):
             answers = [" ".join(x.split(":")[0] for x in b.split(" ")) for b in answers]
         need(a != "bad-op" and "bad-op" not in answers, "operation not understood by harness or driver: %s" % o[:120])
         st = a.split(" ")[0] if kind not in ("parse", "parsef") else a.rsplit("st=", 1)[-1]
@@ -574,7 +586,7 @@ def run_simple_ops(ctx, pair, stats):
                 ctx.violation("corr:" + vlib.sha(o)[:16], "real code and model disagree on `%s`: impl=%s model=%s" % (o[:200], a[:300], " | ".join(answers)[:400]),
                               {"op": o, "impl": a, "model": answers, "model_ops": m, "correspondence": "harness/h_c16.c vs lean/Driver/C16.lean"}, found_input=False)
     need(pos == len(mout), "model answers left over")
-    for k in ("split:ok", "split:err", "splitsep:ok", "pos:ok", "num:ok", "num:err", "esc:ok", "dev:ok", "mkdev:ok", "parse:ok", "parsef:ok"):
+    for k in ("split:ok", "split:err", "splitsep:ok", "pos:ok", "possep:ok", "num:ok", "num:err", "esc:ok", "dev:ok", "mkdev:ok", "parse:ok", "parsef:ok"):
         need(hist.get(k, 0) > 0, "no operation of class %s was evaluated" % k)
     stats.update({"corpus_ops": ncorpus, "split_lines": len(lines), "split_exhaustive": nexh, "split_random": nrand, "splitsep_lines": nsep,
                   "num_strings": len(nums), "esc_strings": len(esc), "esc_with_lf_printed": esc_lf_printed, "esc_with_lf_refused": esc_lf_refused,
@@ -663,7 +675,7 @@ def check_cases(ctx, pair, cases, stats):
         if len(samples) < 6 and (i % 997 == 3):
             samples.append({"case": c.as_dict(), "line": repr(untok(got[3:])), "decoded": a})
     need(n_rt > 1000, "only %d describe lines went through the round trip" % n_rt)
-    for t in ("name", "target", "root", "num", "dev", "rootdir", "lf-target", "lf-root", "lf-name", "dots"):
+    for t in ("name", "target", "root", "num", "dev", "rootdir", "long", "lf-target", "lf-root", "lf-name", "dots"):
         need(tags.get(t, 0) > 0, "no describe case of class %s" % t)
     stats.update({"desc_cases": len(cases), "desc_case_classes": dict(sorted(tags.items())), "printer_eq_repo_model": n_cur,
                   "printer_eq_patched_model_only": n_fix, "desc_refused": n_err, "roundtrips_checked": n_rt,
@@ -1047,7 +1059,16 @@ def check_tools(ctx, pair, stats):
 
 def build_harness(ctx):
     lib = ctx.build_lib()
-    return ctx.cc("h_c16", ["h_c16.c", "h_c16_desc.c"], libs=[str(lib)] + vlib.CODEC_LIBS)
+    try:
+        return ctx.cc("h_c16", ["h_c16.c", "h_c16_desc.c"], libs=[str(lib)] + vlib.CODEC_LIBS)
+    except vlib.CheckFailure as e:
+        # describe.c without a `print_escaped(const char *)`: the direct tie of that function is lost (reported), the
+        # rest of the check — describe_tree as a whole, the parser, the tools — still runs
+        h = ctx.cc("h_c16", ["h_c16.c", "h_c16_desc.c"], flags=["-DC16_NO_PRINT_ESCAPED"], libs=[str(lib)] + vlib.CODEC_LIBS)
+        ctx.violation("corr:print_escaped", "harness/h_c16_desc.c no longer compiles against describe.c's print_escaped(): the model function "
+                      "Sqfs.Quote.printEscaped is no longer compared with it directly: %s" % str(e)[-600:],
+                      {"correspondence": "harness/h_c16_desc.c: c16_capture_escaped", "error": str(e)[-3000:]}, found_input=False)
+        return h
 
 
 def run(ctx):
